@@ -436,6 +436,10 @@ class AsyncPettingZooVecEnv(PettingZooVecEnv):
                 function(timeout)
         except mp.TimeoutError:
             terminate = True
+        except Exception:
+            # A worker error or a dead worker surfaced while draining the
+            # pending call: the remaining workers still have to be stopped
+            terminate = True
 
         if terminate:
             for process in self.processes:
@@ -444,11 +448,17 @@ class AsyncPettingZooVecEnv(PettingZooVecEnv):
         else:
             for pipe in self.parent_pipes:
                 if (pipe is not None) and (not pipe.closed):
-                    pipe.send(("close", None))
+                    try:
+                        pipe.send(("close", None))
+                    except OSError:
+                        pipe.close()
 
             for pipe in self.parent_pipes:
                 if (pipe is not None) and (not pipe.closed):
-                    pipe.recv()
+                    try:
+                        pipe.recv()
+                    except (EOFError, OSError):
+                        pass
 
         for pipe in self.parent_pipes:
             if pipe is not None:
